@@ -49,6 +49,11 @@ ENUM = [
     ('["null","long"]', ['(union 1 (long 1099511627776))']), ('["null","int","string"]', ['(union 2 (string #61))', '(union 1 (int 3))']),
     ('["int"]', ['(union 0 (int 3))']), ('["string","bytes"]', ['(union 0 (string #61))', '(union 1 (bytes #ff))']),
     ('["null",{"type":"record","name":"R","fields":[{"name":"a","type":"int"}]}]', ['(union 1 (record (kv #61 (int 5))))']),
+    ('["null",{"type":"enum","name":"E","symbols":["A","B"]}]', ['(union 1 (enum 1 #42))', '(union 1 (enum 0 #41))', '(union 0 (null))']),
+    ('["null",{"type":"enum","name":"E","symbols":["A"]}]', ['(union 1 (enum 0 #41))']),
+    ('[{"type":"enum","name":"E","symbols":["A","B","C"]},"string"]', ['(union 0 (enum 2 #43))', '(union 1 (string #78))']),
+    ('[{"type":"array","items":"long"},{"type":"map","values":"int"}]', ['(union 0 (array (long 1099511627776)))', '(union 1 (map (kv #6b (int 1))))']),
+    ('[{"type":"array","items":"int"},{"type":"map","values":"int"}]', ['(union 0 (array (int 7)))']),
 ]
 
 def gen(tier, seed):
